@@ -20,8 +20,8 @@ CONFIG = {
             "with triggers biased to pre-terminal/level boundaries x PCT schedule (who runs first, 0-3 step change points, 0-2 change "
             "points anchored at the lines that set should_exit / poll liveness / pop / check the flag in the OMEN loop) or, 1 in 3, a "
             "directed case ('q' at once, thread parked before setting the flag, released when main reaches a drawn labelled line for the n-th time) x virtual cost "
-            "per guess (1us..0.2s, so sleep(0.1) spans 0..1e5 guesses) x new session or (1 in 4) a session resumed after a stand-in quit inside a Markov level; thorough also "
-            "enumerates the thread-death (EOF) point over every guess index of a world; oracle: no effective quit => stream == U; "
+            "per guess (1e-4 s .. 1e5 s: sleep(0.1) spans 0..1000 guesses, and the clock can jump by days) x new session or (1 in 4) a session resumed after a stand-in quit inside a Markov level; 1 in 4 thorough runs "
+            "place a thread death (EOF/closed/EIO) at ~60 evenly spaced guess indices of one world; oracle: no effective quit => stream == U; "
             "effective quit => prefix of U cut at a legal point not later than the pre-terminal (or next Markov guess) current when "
             "the flag was set, saved state resumes to exactly the rest (RefResume); non-trivial = the keyboard thread ran "
             "concurrently with generation (>= 1 switch after the first guess) or stdin failed; distinct = distinct switch/event logs",
@@ -357,6 +357,8 @@ def run_one(tape, tier, prop):
                 res.stats["thread_died_in_resumed_session:" + type(thr[0].exc).__name__] += 1
             problem = judge(res, Uv, Ulv, r, wr, flags, t)
             sigs.append(r.sim.signature())
+            if any(e[1] == "switch" and e[-1] > 1 for e in r.sim.log) or any(k not in ("line:", "line:q", "line:h") for k in r.ctx.kbd_faults):
+                res.nontrivial = digest_of([spec["base"], spec["vars"], spec.get("omen_prob"), "resumed", r.sim.signature()])
             if problem is not None:
                 det = dict(problem[1])
                 det.update(events=repr(ev2), schedule=repr(sch), cost_per_guess=cost, resumed_session=True)
